@@ -183,8 +183,11 @@ fn expected_q(spec: &Spec, ins: &[In], pi: usize, q: u64) -> Option<(Vec<Kind>, 
     // the hold timeout runs from the tick the press is dequeued (t0+1+q); only the tap-versus-hold
     // judgement at the key's own release is compensated for the q ticks spent in the queue
     let vis = |t: u64| (t + 1).max(t0 + 2 + q);
-    let timeout_tick = t0 + 1 + q + heff;
-    let released_in_time = |r: &In| r.t - t0 < heff || q == 0;
+    // concurrent-tap-hold: the stored timeout is shortened by the time the press spent in the queue
+    // (`timeout - delay`, delay then 0), so the timeout counts from the ARRIVAL of the press and the
+    // tap judgement needs no compensation
+    let timeout_tick = if spec.conc { t0 + 1 + heff } else { t0 + 1 + q + heff };
+    let released_in_time = |r: &In| spec.conc || r.t - t0 < heff || q == 0;
     let mut ticks: Vec<u64> = after.iter().map(|e| vis(e.t)).collect();
     ticks.dedup();
     let listed = |k: usize| k == 1;
@@ -441,7 +444,7 @@ fn check(spec: &Spec, cfg: &str, sched: &[(u32, Ev)], first_new: usize, st: &mut
                 if let Some(q) = ex.qdelay.get(i).copied().flatten() {
                     // (non-concurrent mode only: in concurrent mode several schedule classes disagree with this
                     // model and have not been analysed)
-                    if q + 1 < spec.h as u64 && !spec.conc {
+                    if q + 1 < spec.h as u64 {
                         if let (Some((kinds, _)), Some((dt, dk, _))) = (expected_q(spec, &ex.ins, i, q), d) {
                             st.count("presses_T_kind_checked_behind_queue", 1);
                             if kinds.len() == 1 && !kinds.contains(&dk) {
